@@ -205,3 +205,359 @@ Proof.
     induction argv as [|x l IH]; cbn; [reflexivity|]. rewrite mx_beq_refl. exact IH. }
   rewrite H. reflexivity.
 Qed.
+
+(* ---- lifting mx_sim through the callers of InternalResolveMacros ---- *)
+
+Lemma mx_sim_ret {R : Type} env lv (ok : R -> Prop) (x : R) :
+  mx_sim env lv ok (fun d => (x, d)) (fun d => (x, d)) x.
+Proof.
+  intros d0 Hinv. cbn [fst snd]. split; [reflexivity|]. split; [exact Hinv|]. split; [apply mx_rd_le_refl|].
+  intros; reflexivity.
+Qed.
+
+(* sequencing: [C] runs [c] and hands result and dictionary to [kc]; a result of [c] that is not ok ends the
+   computation with a result that is not ok either and leaves the dictionary alone *)
+Lemma mx_sim_bind {R S : Type} env lv (okR : R -> Prop) (okS : S -> Prop)
+    (c p : mx_rdict -> R * mx_rdict) (loc : R) (kc kp : R -> mx_rdict -> S * mx_rdict) (kl : R -> S)
+    (C P : mx_rdict -> S * mx_rdict) :
+  mx_sim env lv okR c p loc ->
+  (forall d, C d = let (r, d') := c d in kc r d') ->
+  (forall d, P d = let (r, d') := p d in kp r d') ->
+  (forall r, okR r -> mx_sim env lv okS (kc r) (kp r) (kl r)) ->
+  (forall r, okR r \/ forall d, kc r d = (kl r, d) /\ ~ okS (kl r)) ->
+  mx_sim env lv okS C P (kl loc).
+Proof.
+  intros Hc HC HP Hk Hdec d0 Hinv. rewrite HC.
+  destruct (Hc d0 Hinv) as (HA & HI & HL & HR).
+  destruct (c d0) as [r d1]. cbn [fst snd] in HA, HI, HL, HR. rewrite <- HA.
+  destruct (Hdec r) as [Hok|Hthrow].
+  - destruct (Hk r Hok d1 HI) as (A2 & I2 & L2 & R2).
+    split; [exact A2|]. split; [exact I2|]. split; [eapply mx_rd_le_trans; eassumption|].
+    intros Hn HokS dF HinvF Hle. rewrite HP.
+    rewrite (HR Hn Hok dF HinvF (mx_rd_le_trans _ _ _ L2 Hle)). apply R2; assumption.
+  - destruct (Hthrow d1) as [E Hno]. rewrite E. cbn [fst snd].
+    split; [reflexivity|]. split; [exact HI|]. split; [exact HL|].
+    intros _ HokS. exfalso. apply Hno, HokS.
+Qed.
+
+Definition mx_sum_ok {A : Type} (x : A + mx_err) : Prop := forall e, x <> inr e.
+Definition mx_step_ok (s : mx_argstep) : Prop := forall e, s <> MxArgThrow e.
+Definition mx_cmd_ok (r : mx_cmdres) : Prop := forall e, r <> MxCmdThrow e.
+
+
+(* 1. ResolveMacros over an array value *)
+Lemma mx_sim_rm_array env lv ic ip il :
+  (forall s, mx_sim env lv mx_res_ok (ic s) (ip s) (il s)) ->
+  forall l, mx_sim env lv mx_sum_ok (mx_rm_array_r ic l) (mx_rm_array_r ip l) (mx_rm_array il l).
+Proof.
+  intros Hi l. induction l as [|a r IH].
+  - apply mx_sim_ret.
+  - pose (fin := fun (v : mxv) (m : bool) (x : list mxv * bool + mx_err) =>
+        match x with inr e => inr e | inl (r', m') => inl (mx_rm_elem v :: r', m || m') end).
+    pose (kk := fun (irm : mx_bytes -> mx_rdict -> mx_res * mx_rdict) (x : mx_res) (d : mx_rdict) =>
+        match x with
+        | MxThrow e => (@inr (list mxv * bool) mx_err e, d)
+        | MxOk v m => let (y, d'') := mx_rm_array_r irm r d in (fin v m y, d'')
+        end).
+    apply (mx_sim_bind env lv mx_res_ok mx_sum_ok (ic (mx_to_string a)) (ip (mx_to_string a)) (il (mx_to_string a))
+             (kk ic) (kk ip)
+             (fun x => match x with MxThrow e => inr e | MxOk v m => fin v m (mx_rm_array il r) end)).
+    + apply Hi.
+    + intros d. cbn [mx_rm_array_r]. destruct (ic (mx_to_string a) d) as [[v m|e] d']; [|reflexivity].
+      unfold kk. destruct (mx_rm_array_r ic r d') as [[[r' m']|e] d'']; reflexivity.
+    + intros d. cbn [mx_rm_array_r]. destruct (ip (mx_to_string a) d) as [[v m|e] d']; [|reflexivity].
+      unfold kk. destruct (mx_rm_array_r ip r d') as [[[r' m']|e] d'']; reflexivity.
+    + intros [v m|e] Hok; [|exfalso; eapply Hok; reflexivity].
+      apply (mx_sim_bind env lv mx_sum_ok mx_sum_ok (mx_rm_array_r ic r) (mx_rm_array_r ip r) (mx_rm_array il r)
+               (fun y d => (fin v m y, d)) (fun y d => (fin v m y, d)) (fin v m)).
+      * exact IH.
+      * intros d. reflexivity.
+      * intros d. reflexivity.
+      * intros y _. apply mx_sim_ret.
+      * intros [[r' m']|e]; [left; intros e; discriminate|right]. intros d. split; [reflexivity|].
+        intros H. eapply H. reflexivity.
+    + intros [v m|e]; [left; intros e; discriminate|right]. intros d. split; [reflexivity|].
+      intros H. eapply H. reflexivity.
+Qed.
+
+(* 2. ResolveMacros *)
+Lemma mx_sim_resolve_macros env env' level esc v :
+  mx_sim env (S level) mx_res_ok (mx_resolve_macros_r (MxRmCollect false) level env esc v)
+    (mx_resolve_macros_r MxRmReplay level env' esc v) (mx_resolve_macros level env esc v).
+Proof.
+  unfold mx_resolve_macros_r, mx_resolve_macros. destruct (mx_is_empty v); [apply mx_sim_ret|].
+  destruct v as [ |b|z|s|l|dd]; try apply mx_sim_irm; [|apply mx_sim_ret].
+  apply (mx_sim_bind env (S level) mx_sum_ok mx_res_ok
+           (mx_rm_array_r (mx_irm_r (MxRmCollect false) (S level) env false) l)
+           (mx_rm_array_r (mx_irm_r MxRmReplay (S level) env' false) l)
+           (mx_rm_array (mx_irm mx_fuel (S level) env false) l)
+           (fun x d => (match x with inr e => MxThrow e | inl (l', m) => MxOk (MxArr l') m end, d))
+           (fun x d => (match x with inr e => MxThrow e | inl (l', m) => MxOk (MxArr l') m end, d))
+           (fun x => match x with inr e => MxThrow e | inl (l', m) => MxOk (MxArr l') m end)).
+  - apply mx_sim_rm_array. intros s. apply mx_sim_irm.
+  - intros d. destruct (mx_rm_array_r _ l d) as [[[l' m]|e] d']; reflexivity.
+  - intros d. destruct (mx_rm_array_r _ l d) as [[[l' m]|e] d']; reflexivity.
+  - intros x _. apply mx_sim_ret.
+  - intros [[l' m]|e]; [left; intros e; discriminate|right]. intros d. split; [reflexivity|].
+    intros H. eapply H. reflexivity.
+Qed.
+
+(* 3. one entry of the arguments dictionary: set_if, then value *)
+Lemma mx_arg_step_split level env a :
+  mx_arg_step level env a =
+  if mx_as_isdict a && negb (mx_is_empty (mx_as_set_if a)) then
+    match mx_sif_decide (mx_resolve_macros (S level) env false (mx_as_set_if a)) with
+    | inr st => st
+    | inl _ => mx_val_decide a (mx_resolve_macros (S level) env false (mx_as_value a))
+    end
+  else mx_val_decide a (mx_resolve_macros (S level) env false (mx_as_value a)).
+Proof.
+  unfold mx_arg_step, mx_sif_decide, mx_val_decide.
+  destruct (mx_as_isdict a && negb (mx_is_empty (mx_as_set_if a))); [|reflexivity].
+  destruct (mx_resolve_macros (S level) env false (mx_as_set_if a)) as [v m|e]; [|reflexivity].
+  destruct m; [reflexivity|]. destruct (mx_set_if_truth v) as [[|]|]; reflexivity.
+Qed.
+
+Lemma mx_sim_value env env' level a :
+  mx_sim env (S (S level)) mx_step_ok
+    (fun d => let (rv, d'') := mx_resolve_macros_r (MxRmCollect false) (S level) env false (mx_as_value a) d in
+              (mx_val_decide a rv, d''))
+    (fun d => let (rv, d'') := mx_resolve_macros_r MxRmReplay (S level) env' false (mx_as_value a) d in
+              (mx_val_decide a rv, d''))
+    (mx_val_decide a (mx_resolve_macros (S level) env false (mx_as_value a))).
+Proof.
+  apply (mx_sim_bind env (S (S level)) mx_res_ok mx_step_ok
+           (mx_resolve_macros_r (MxRmCollect false) (S level) env false (mx_as_value a))
+           (mx_resolve_macros_r MxRmReplay (S level) env' false (mx_as_value a))
+           (mx_resolve_macros (S level) env false (mx_as_value a))
+           (fun rv d => (mx_val_decide a rv, d)) (fun rv d => (mx_val_decide a rv, d)) (mx_val_decide a)).
+  - apply mx_sim_resolve_macros.
+  - intros d. reflexivity.
+  - intros d. reflexivity.
+  - intros rv _. apply mx_sim_ret.
+  - intros [v m|e]; [left; intros e; discriminate|right]. intros d. split; [reflexivity|].
+    intros H. eapply H. reflexivity.
+Qed.
+
+Lemma mx_sim_arg_step env env' level a :
+  mx_sim env (S (S level)) mx_step_ok (mx_arg_step_r (MxRmCollect false) level env a)
+    (mx_arg_step_r MxRmReplay level env' a) (mx_arg_step level env a).
+Proof.
+  rewrite mx_arg_step_split. unfold mx_arg_step_r.
+  destruct (mx_as_isdict a && negb (mx_is_empty (mx_as_set_if a))); [|apply mx_sim_value].
+  pose (kk := fun (md : mx_rmode) (en : list mx_level) (rs : mx_res) (d' : mx_rdict) =>
+      match mx_sif_decide rs with
+      | inr st => (st, d')
+      | inl _ => let (rv, d'') := mx_resolve_macros_r md (S level) en false (mx_as_value a) d' in
+                 (mx_val_decide a rv, d'')
+      end).
+  apply (mx_sim_bind env (S (S level)) mx_res_ok mx_step_ok
+           (mx_resolve_macros_r (MxRmCollect false) (S level) env false (mx_as_set_if a))
+           (mx_resolve_macros_r MxRmReplay (S level) env' false (mx_as_set_if a))
+           (mx_resolve_macros (S level) env false (mx_as_set_if a))
+           (kk (MxRmCollect false) env) (kk MxRmReplay env')
+           (fun rs => match mx_sif_decide rs with
+                      | inr st => st
+                      | inl _ => mx_val_decide a (mx_resolve_macros (S level) env false (mx_as_value a))
+                      end)).
+  - apply mx_sim_resolve_macros.
+  - intros d. destruct (mx_resolve_macros_r _ _ _ _ (mx_as_set_if a) d) as [rs d']. reflexivity.
+  - intros d. destruct (mx_resolve_macros_r _ _ _ _ (mx_as_set_if a) d) as [rs d']. reflexivity.
+  - intros rs _. unfold kk. destruct (mx_sif_decide rs) as [u|st]; [apply mx_sim_value|apply mx_sim_ret].
+  - intros [v m|e]; [left; intros e; discriminate|right]. intros d. split; [reflexivity|].
+    intros H. eapply H. reflexivity.
+Qed.
+
+(* 4. the loop over the arguments dictionary *)
+Lemma mx_sim_collect env env' level args :
+  mx_sim env (S (S level)) mx_sum_ok (mx_collect_r (MxRmCollect false) level env args)
+    (mx_collect_r MxRmReplay level env' args) (mx_collect level env args).
+Proof.
+  induction args as [|a r IH].
+  - apply mx_sim_ret.
+  - pose (fin := fun (c : mx_carg) (x : list mx_carg + mx_err) =>
+        match x with inr e => inr e | inl cs => inl (c :: cs) end).
+    pose (kk := fun (md : mx_rmode) (en : list mx_level) (st : mx_argstep) (d' : mx_rdict) =>
+        match st with
+        | MxArgThrow e => (@inr (list mx_carg) mx_err e, d')
+        | MxArgSkip => mx_collect_r md level en r d'
+        | MxArgPush c => let (y, d'') := mx_collect_r md level en r d' in (fin c y, d'')
+        end).
+    apply (mx_sim_bind env (S (S level)) mx_step_ok mx_sum_ok
+             (mx_arg_step_r (MxRmCollect false) level env a) (mx_arg_step_r MxRmReplay level env' a)
+             (mx_arg_step level env a)
+             (kk (MxRmCollect false) env) (kk MxRmReplay env')
+             (fun st => match st with
+                        | MxArgThrow e => inr e
+                        | MxArgSkip => mx_collect level env r
+                        | MxArgPush c => fin c (mx_collect level env r)
+                        end)).
+    + apply mx_sim_arg_step.
+    + intros d. cbn [mx_collect_r]. destruct (mx_arg_step_r _ level env a d) as [[c| |e] d']; try reflexivity.
+      unfold kk. destruct (mx_collect_r _ level env r d') as [[cs|e] d'']; reflexivity.
+    + intros d. cbn [mx_collect_r]. destruct (mx_arg_step_r _ level env' a d) as [[c| |e] d']; try reflexivity.
+      unfold kk. destruct (mx_collect_r _ level env' r d') as [[cs|e] d'']; reflexivity.
+    + intros [c| |e] Hok; [|exact IH|exfalso; eapply Hok; reflexivity].
+      apply (mx_sim_bind env (S (S level)) mx_sum_ok mx_sum_ok
+               (mx_collect_r (MxRmCollect false) level env r) (mx_collect_r MxRmReplay level env' r)
+               (mx_collect level env r)
+               (fun y d => (fin c y, d)) (fun y d => (fin c y, d)) (fin c)).
+      * exact IH.
+      * intros d. reflexivity.
+      * intros d. reflexivity.
+      * intros y _. apply mx_sim_ret.
+      * intros [cs|e]; [left; intros e; discriminate|right]. intros d. split; [reflexivity|].
+        intros H. eapply H. reflexivity.
+    + intros [c| |e]; [left; intros e; discriminate|left; intros e; discriminate|right].
+      intros d. split; [reflexivity|]. intros H. eapply H. reflexivity.
+Qed.
+
+(* 5. ResolveArguments: the command line, then the arguments *)
+Definition mx_cmdline_r (md : mx_rmode) (env : list mx_level) (command : mxv) (arguments : option (list mx_argspec))
+    (d : mx_rdict) : mx_res * mx_rdict :=
+  match arguments, command with
+  | Some _, MxArr _ | None, _ => mx_resolve_macros_r md 1 env true command d
+  | Some _, _ => (MxOk (MxArr [command]) false, d)
+  end.
+Definition mx_cmdline (env : list mx_level) (command : mxv) (arguments : option (list mx_argspec)) : mx_res :=
+  match arguments, command with
+  | Some _, MxArr _ | None, _ => mx_resolve_macros 1 env true command
+  | Some _, _ => MxOk (MxArr [command]) false
+  end.
+
+Lemma mx_sim_cmdline env env' command arguments :
+  mx_sim env 2 mx_res_ok (mx_cmdline_r (MxRmCollect false) env command arguments)
+    (mx_cmdline_r MxRmReplay env' command arguments) (mx_cmdline env command arguments).
+Proof.
+  unfold mx_cmdline_r, mx_cmdline.
+  destruct arguments as [args|]; destruct command; first [apply mx_sim_resolve_macros | apply mx_sim_ret].
+Qed.
+
+Lemma mx_sim_resolve_arguments env env' command arguments :
+  mx_sim env 2 mx_cmd_ok (mx_resolve_arguments_r (MxRmCollect false) env command arguments)
+    (mx_resolve_arguments_r MxRmReplay env' command arguments) (mx_resolve_arguments env command arguments).
+Proof.
+  pose (fin := fun (rc : mxv) (x : list mx_carg + mx_err) =>
+      match x with inr e => MxCmdThrow e | inl cs => mx_assemble rc (Some cs) end).
+  pose (kk := fun (md : mx_rmode) (en : list mx_level) (resolved : mx_res) (d1 : mx_rdict) =>
+      match resolved with
+      | MxThrow e => (MxCmdThrow e, d1)
+      | MxOk rc _ =>
+          match arguments with
+          | None => (mx_assemble rc None, d1)
+          | Some args => let (y, d2) := mx_collect_r md 0 en args d1 in (fin rc y, d2)
+          end
+      end).
+  apply (mx_sim_bind env 2 mx_res_ok mx_cmd_ok
+           (mx_cmdline_r (MxRmCollect false) env command arguments) (mx_cmdline_r MxRmReplay env' command arguments)
+           (mx_cmdline env command arguments)
+           (kk (MxRmCollect false) env) (kk MxRmReplay env')
+           (fun resolved => match resolved with
+                            | MxThrow e => MxCmdThrow e
+                            | MxOk rc _ =>
+                                match arguments with
+                                | None => mx_assemble rc None
+                                | Some args => fin rc (mx_collect 0 env args)
+                                end
+                            end)).
+  - apply mx_sim_cmdline.
+  - intros d. unfold mx_resolve_arguments_r.
+    change (match arguments, command with
+            | Some _, MxArr _ | None, _ => mx_resolve_macros_r (MxRmCollect false) 1 env true command d
+            | Some _, _ => (MxOk (MxArr [command]) false, d)
+            end) with (mx_cmdline_r (MxRmCollect false) env command arguments d).
+    destruct (mx_cmdline_r (MxRmCollect false) env command arguments d) as [[rc m|e] d1]; [|reflexivity].
+    unfold kk. destruct arguments as [args|]; [|reflexivity].
+    destruct (mx_collect_r _ 0 env args d1) as [[cs|e] d2]; reflexivity.
+  - intros d. unfold mx_resolve_arguments_r.
+    change (match arguments, command with
+            | Some _, MxArr _ | None, _ => mx_resolve_macros_r MxRmReplay 1 env' true command d
+            | Some _, _ => (MxOk (MxArr [command]) false, d)
+            end) with (mx_cmdline_r MxRmReplay env' command arguments d).
+    destruct (mx_cmdline_r MxRmReplay env' command arguments d) as [[rc m|e] d1]; [|reflexivity].
+    unfold kk. destruct arguments as [args|]; [|reflexivity].
+    destruct (mx_collect_r _ 0 env' args d1) as [[cs|e] d2]; reflexivity.
+  - intros [rc m|e] Hok; [|exfalso; eapply Hok; reflexivity]. unfold kk.
+    destruct arguments as [args|]; [|apply mx_sim_ret].
+    apply (mx_sim_bind env 2 mx_sum_ok mx_cmd_ok
+             (mx_collect_r (MxRmCollect false) 0 env args) (mx_collect_r MxRmReplay 0 env' args) (mx_collect 0 env args)
+             (fun y d => (fin rc y, d)) (fun y d => (fin rc y, d)) (fin rc)).
+    + apply mx_sim_collect.
+    + intros d. reflexivity.
+    + intros d. reflexivity.
+    + intros y _. apply mx_sim_ret.
+    + intros [cs|e]; [left; intros e; discriminate|right]. intros d. split; [reflexivity|].
+      intros H. eapply H. reflexivity.
+  - intros [rc m|e]; [left; intros e; discriminate|right]. intros d. split; [reflexivity|].
+    intros H. eapply H. reflexivity.
+Qed.
+
+(* every command shape: string or array command line, with or without an arguments dictionary *)
+Lemma mx_replay_all_shapes env env' command arguments r d :
+  mx_no_nested_missing env 2 ->
+  mx_resolve_arguments_r (MxRmCollect false) env command arguments [] = (r, d) ->
+  (forall e, r <> MxCmdThrow e) ->
+  r = mx_resolve_arguments env command arguments /\
+  mx_resolve_arguments_r MxRmReplay env' command arguments d = (r, d).
+Proof.
+  intros Hn Hc Hok.
+  destruct (mx_sim_resolve_arguments env env' command arguments [] (mx_rd_inv_nil env 2)) as (HA & HI & HL & HR).
+  rewrite Hc in HA, HI, HL, HR. cbn [fst snd] in HA, HI, HL, HR.
+  split; [exact HA|]. exact (HR Hn Hok d HI (mx_rd_le_refl d)).
+Qed.
+
+(* witness for all shapes: vars.a = "v '" (needs quoting only under sh, not in an argv), vars.b = ["x"; "y z"];
+   command [ "c", "$a$" ], arguments { "-k" = { value = "$a$" }, "-l" = "$b$" } *)
+Definition mx_w_env2 : list mx_level :=
+  [ {| mx_lv_name := [104; 111; 115; 116]; mx_lv_short := true;
+       mx_lv_vars := Some [([97], MxStr [118; 32; 39]); ([98], MxArr [MxStr [120]; MxStr [121; 32; 122]])];
+       mx_lv_macros := []; mx_lv_fields := [] |} ].
+Definition mx_w_cmd2 : mxv := MxArr [MxStr [99]; MxStr [36; 97; 36]].
+Definition mx_w_args2 : list mx_argspec :=
+  [ mx_w_arg;
+    {| mx_as_name := [45; 108]; mx_as_isdict := false; mx_as_key := None; mx_as_value := MxStr [36; 98; 36];
+       mx_as_required := false; mx_as_skip_key := false; mx_as_repeat_key := true; mx_as_order := 0%Z;
+       mx_as_sep := None; mx_as_set_if := MxEmpty |} ].
+
+Lemma mx_replay_witness_all_shapes :
+  (exists r d, mx_resolve_arguments_r (MxRmCollect false) mx_w_env2 mx_w_cmd2 (Some mx_w_args2) [] = (r, d) /\
+     (forall e, r <> MxCmdThrow e) /\ List.length d = 3%nat) /\
+  mx_remote false mx_w_env2 [] mx_w_cmd2 (Some mx_w_args2) = Some (mx_resolve_arguments mx_w_env2 mx_w_cmd2 (Some mx_w_args2)) /\
+  mx_resolve_arguments mx_w_env2 mx_w_cmd2 (Some mx_w_args2) =
+    MxCmdArr [[99]; [118; 32; 39]; [45; 107]; [118; 32; 39]; [45; 108]; [120]; [45; 108]; [121; 32; 122]].
+Proof.
+  split; [|vm_compute; split; reflexivity].
+  eexists. eexists. split; [vm_compute; reflexivity|]. split; [intros e; discriminate|reflexivity].
+Qed.
+
+(* the witness environment satisfies the hypothesis of the theorem: every name that is found has a value without missing macros *)
+Lemma mx_w_env2_lookup n :
+  fst (fst (mx_resolve_macro mx_w_env2 n)) = true ->
+  mx_resolve_macro mx_w_env2 n = (true, MxStr [118; 32; 39], true) \/
+  mx_resolve_macro mx_w_env2 n = (true, MxArr [MxStr [120]; MxStr [121; 32; 122]], true) \/
+  mx_resolve_macro mx_w_env2 n = (true, MxDict [], false).
+Proof.
+  unfold mx_resolve_macro.
+  destruct (mx_split_any [mx_ch_dot] n []) as [|t0 [|t1 r]].
+  - cbn. destruct (mx_beq n [97]); [intros _; left; reflexivity|].
+    destruct (mx_beq n [98]); [intros _; right; left; reflexivity|].
+    intros _. right. right. reflexivity.
+  - cbn. destruct (mx_beq n [97]); [intros _; left; reflexivity|].
+    destruct (mx_beq n [98]); [intros _; right; left; reflexivity|].
+    cbn. discriminate.
+  - cbn [mx_lookup_levels mx_w_env2 mx_lv_name mx_lv_short mx_lv_vars mx_lv_macros mx_lv_fields].
+    destruct (negb (mx_beq t0 []) && negb (mx_beq t0 [104; 111; 115; 116])); [cbn; discriminate|].
+    destruct (mx_beq t0 []); cbn.
+    + destruct (mx_beq n [97]); [intros _; left; reflexivity|].
+      destruct (mx_beq n [98]); [intros _; right; left; reflexivity|].
+      cbn. discriminate.
+    + discriminate.
+Qed.
+
+Lemma mx_w_env2_no_nested_missing : mx_no_nested_missing mx_w_env2 2.
+Proof.
+  intros n v m Hf Hp. unfold mx_pre, mx_found, mx_rlookup in *.
+  destruct (mx_beq n []).
+  { vm_compute in Hp. injection Hp as _ <-. reflexivity. }
+  destruct (mx_w_env2_lookup n Hf) as [E|[E|E]]; rewrite E in Hp; vm_compute in Hp; injection Hp as _ <-; reflexivity.
+Qed.
